@@ -92,6 +92,15 @@ fn replay_one(steps: &[Value], gran: i64) -> Result<Vec<Value>, String> {
                 std::fs::write(&file, content(version)).map_err(|e| e.to_string())?;
                 set_mtime_ms(&file, base + t * gran)?;
             }
+            "RestoreOld1" | "RestoreOld2" => {
+                // "restore an older copy": different content of the same size whose mtime is
+                // 1 or 2 ticks OLDER than the mtime jj recorded (the model's rm)
+                let k = if a == "RestoreOld1" { 1 } else { 2 };
+                let rm = st["rm"].as_i64().ok_or("restore step without rm")?;
+                version += 1;
+                std::fs::write(&file, content(version)).map_err(|e| e.to_string())?;
+                set_mtime_ms(&file, base + (rm - k) * gran)?;
+            }
             "SaveState" => {
                 let before = inode(&state_file)?;
                 let mtime_before = mtime_ms(&state_file)?;
